@@ -395,7 +395,18 @@ fn tx_update(ctx: &mut Ctx, ch: &Choices) -> R {
     if size > 8192 {
         probe("c13_metadata_larger_than_8k");
     }
-    sweep(ctx, "update_file", &title, OpMask::ALL, &|d: &Disk| {
+    // the error kinds of injected read/write failures vary in this sweep (UnexpectedEof, BrokenPipe,
+    // InvalidData besides Other): whatever its kind, an error of the source or the sink must come back
+    let salt = ch.draw("c13.upd.kindsalt", 4);
+    crate::disk::ERROR_KIND_SALT.with(|c| c.set(Some(salt)));
+    let r = sweep_update(ctx, &title, &orig, fail_rebuilt, size);
+    crate::disk::ERROR_KIND_SALT.with(|c| c.set(None));
+    r
+}
+
+fn sweep_update(ctx: &mut Ctx, title: &str, orig: &[u8], fail_rebuilt: bool, size: usize) -> R {
+    let orig = orig.to_vec();
+    sweep(ctx, "update_file", title, OpMask::ALL, &|d: &Disk| {
         let f0 = d.create(orig.clone());
         let f1 = d.create(Vec::new());
         let orig_h = d.open(f0, Benign::none());
